@@ -540,6 +540,22 @@ fn run_case(cx: &CaseCtx, rep: &mut Report) {
 		"from_overlayed [ from_container filename=a, from_overlayed [ from_container filename=b, from_container filename=c ]",
 		"from_overlayed [ a [ b [ c [ d [ e [ f [ g [ h = ] ] ] ] ] ] ] ]",
 	];
+	// long rejected texts with multi-byte characters at every position of whatever the error report is cut at
+	for pad in 0..cx.tier.pick(40, 160) {
+		let t = format!("from_overlayed [ from_container filename=\"{}{}\" note=\"{}\", from_container filename= ]", "x".repeat(pad as usize % 40), "\u{fc}\u{20ac}\u{1F5FA}".repeat(20 + pad as usize), "\u{e4}".repeat(150 + 7 * pad as usize));
+		rep.eval();
+		match guard::catch(|| parse_vpl(&t)) {
+			Err(p) => {
+				rep.violation(&p.signature("parse_vpl"), "parser panicked on an invalid text", json!({"text_len": t.len(), "pad": pad, "panic": p.describe()}));
+				break;
+			}
+			Ok(Ok(got)) => {
+				rep.violation("invalid-accepted|defect inside a source list", "text outside the syntax accepted", json!({"text": t, "got": format!("{got:?}")}));
+				break;
+			}
+			Ok(Err(_)) => {}
+		}
+	}
 	let n = cx.tier.pick(150, 600);
 	for i in 0..n {
 		let t = rejected[i as usize % rejected.len()];
